@@ -1642,7 +1642,19 @@ def h_index(I, st, callee, target, args, ctx):
                 hi = lin_of(st, idx.fields[0])
             d1 = st.decide(("le0", lo - hi))
             d2 = st.decide(("le0", hi - ln))
-            ascii_ = v.term[0] != "cstr" or all(b < 128 for b in v.term[1])
+            def known_ascii(t):
+                # a literal made of ASCII bytes, or text decoded through the crate's own tables; bytes
+                # taken straight from an input buffer (`from_utf8(slice of the line)`) may hold
+                # multi-byte characters
+                if isinstance(t, tuple):
+                    if t and t[0] == "cstr":
+                        return all(b < 128 for b in t[1])
+                    if t and t[0] == "slice":
+                        return False
+                    return all(known_ascii(x) for x in t)
+                return True
+            at_ends = (lo.is_const() and lo.c == 0 or (lo - ln).is_const() and (lo - ln).c == 0) and ((hi - ln).is_const() and (hi - ln).c == 0 or hi.is_const() and hi.c == 0)
+            ascii_ = known_ascii(v.term) or at_ends
             okk = d1 is True and d2 is True and ascii_
             panic_obligation(I, st, ctx, "str slice index", okk, None if okk else "range %r..%r of a string of length %r (out of range or not a character boundary)" % (lo, hi, ln))
             return [(st, VStr(("substr", v.term, lo.key(), hi.key())))]
@@ -2406,7 +2418,16 @@ def h_opt_unwrap_or(I, st, callee, target, args, ctx):
         if len(args) > 1:
             return [(st, args[1])]
         dest = ctx["term"]["dest"]
-        return [(st, default_of(I, ctx["body"]["locals"][dest["l"]]))]
+        ty = ctx["body"]["locals"][dest["l"]]
+        t = I.rty(ty)
+        if t["k"] == "adt" and t["def"].startswith(I.f.crate + "::"):
+            # `unwrap_or_default()` of a type of the crate: its own Default impl (derived or not)
+            short = t["def"][len(I.f.crate) + 2:]
+            cands = [b for b in I.f.bodies.values() if (b.get("impl_trait") or "").endswith("default::Default") and b["def"].endswith("::default")
+                     and (b.get("impl_self") or "").split("<")[0] == short]
+            if len(cands) == 1:
+                return I.call_local(st, cands[0], [], ctx)
+        return [(st, default_of(I, ty))]
     raise Unanalysable("Option::unwrap_or on %r" % (v,))
 
 
@@ -3453,3 +3474,26 @@ def h_heapless_is_full(I, st, callee, target, args, ctx):
         raise Unanalysable("is_full of %r" % (v,))
     n = I.seq_len(st, v.term) if isinstance(v, VSeq) else Lin.const(len(v.items))
     return [(st, VBool(("le0", -n + cap)))]
+
+
+def _unsigned_abs(I, st, callee, target, args, ctx):
+    """|x| of a signed integer as the unsigned type of the same width (cannot overflow)"""
+    x = args[0]
+    if not isinstance(x, VInt):
+        raise Unanalysable("unsigned_abs of %r" % (x,))
+    lx = lin_of(st, x)
+    r = st.lin_range(lx)
+    if r.min() >= 0:
+        return [(st, VInt(x.w, False, lin=lx))]
+    if r.max() <= 0:
+        return [(st, VInt(x.w, False, lin=-lx))]
+    sa = lx.single_atom()
+    if sa and sa[1] == 1 and sa[2] == 0:
+        cur = st.aset(sa[0])
+        raise NeedSplit(sa[0], [cur.intersect(IntSet.range(-INF, -1)), cur.intersect(IntSet.range(0, INF))])
+    raise Unanalysable("unsigned_abs of a value of unknown sign")
+
+
+for _t in ("i8", "i16", "i32", "i64", "isize"):
+    EXT["core:%s::unsigned_abs" % _t] = _unsigned_abs
+    CONTRACT["core:%s::unsigned_abs" % _t] = "total"
